@@ -20,8 +20,16 @@ pub const MAX_DAYS: i64 = 90_000_000;
 pub fn day_targets(quick: bool) -> Vec<i64> {
     let m = i64::MAX;
     let mut v = vec![0, 1, 2, 3, 7, 14, 15, (1 << 31) - 1, 1 << 31, m / 3, m / 3 + 1, m / 3 * 2 + 1, m];
+    // values that a narrowing conversion somewhere would fold onto small ones: 2^k and 2^k + 14
+    // for the usual integer widths
+    for k in [8u32, 16, 32, 48] {
+        v.extend([1i64 << k, (1i64 << k) + 14]);
+    }
     if !quick {
         v.extend([4, 5, 9, 13, 100, 365, MAX_DAYS / 2, MAX_DAYS, MAX_DAYS + 1, m / 2, m - 1]);
+        for k in [15u32, 24, 31, 33, 40, 56, 62] {
+            v.extend([(1i64 << k) - 1, 1i64 << k, (1i64 << k) + 1, (1i64 << k) + 14]);
+        }
     }
     v.sort();
     v.dedup();
@@ -31,8 +39,14 @@ pub fn day_targets(quick: bool) -> Vec<i64> {
 pub fn version_targets(quick: bool) -> Vec<u32> {
     let m = u32::MAX;
     let mut v = vec![0, 1, 2, 3, 99, 100, 101, m / 3, m / 3 + 1, (1 << 31) - 1, 1 << 31, m / 3 * 2 + 1, m];
+    for k in [8u32, 16] {
+        v.extend([1u32 << k, (1u32 << k) + 2]);
+    }
     if !quick {
         v.extend([4, 5, 7, 50, 1000, 65535, 65536, m / 2, m - 1]);
+        for k in [15u32, 24, 30] {
+            v.extend([(1u32 << k) - 1, 1u32 << k, (1u32 << k) + 2]);
+        }
     }
     v.sort();
     v.dedup();
@@ -40,7 +54,9 @@ pub fn version_targets(quick: bool) -> Vec<u32> {
 }
 
 fn measures_around(t: i128, max: i128) -> Vec<i128> {
-    let mut v = vec![0, 1, t - 1, t, t + 1, 3 * t / 2 - 1, 3 * t / 2, 3 * t / 2 + 1, 2 * t, max];
+    // around the thresholds of this target, and a few absolute values (the thresholds of small
+    // targets: what a folded large target would behave like)
+    let mut v = vec![0, 1, t - 1, t, t + 1, 3 * t / 2 - 1, 3 * t / 2, 3 * t / 2 + 1, 2 * t, max, 2, 3, 14, 15, 21, 22, 100, 150, 300, 1000];
     v.retain(|x| *x >= 0 && *x <= max);
     v.sort();
     v.dedup();
